@@ -58,7 +58,13 @@ where
         let store = Vec::from(bytes);
         // add data to entries
         for entry in &mut entries {
-            let mut remaining = &bytes[entry.offset as usize..];
+            // the offset is untrusted (and may be negative): outside the store it is an error, not a panic
+            let mut remaining = bytes.get(entry.offset as usize..).ok_or_else(|| {
+                Error::Nom(format!(
+                    "Entry offset {} is outside the data section",
+                    entry.offset
+                ))
+            })?;
 
             match &mut entry.data {
                 IndexData::Null => {}
@@ -88,7 +94,9 @@ where
                     for _ in 0..entry.num_items {
                         let (rest, raw_string) = complete::take_till(|item| item == 0)(remaining)?;
                         // the null byte is still in there.. we need to cut it out.
-                        remaining = &rest[1..];
+                        remaining = rest.get(1..).ok_or_else(|| {
+                            Error::Nom("Unterminated string in string array entry".to_string())
+                        })?;
                         let string = String::from_utf8_lossy(raw_string).to_string();
                         strings.push(string);
                     }
